@@ -63,13 +63,14 @@ class Ctx:
     raises: bool = False
     ret: object = None
     divs: list = field(default_factory=list)   # divisors (coq text) met while translating the current statement
+    extra: dict = field(default_factory=dict)  # per-function options from the signature table (fuel bound, ...)
 
     def fresh(self, base):
         self.counter[0] += 1
         return f"{base}_{self.counter[0]}"
 
     def child(self, **upd):
-        c = Ctx(self.where, self.fns, dict(self.env), self.counter, self.raises, self.ret, self.divs)
+        c = Ctx(self.where, self.fns, dict(self.env), self.counter, self.raises, self.ret, self.divs, self.extra)
         c.env.update(upd)
         return c
 
@@ -399,7 +400,8 @@ def stmts(ctx: Ctx, body: list, node=None) -> str:
     if not body:
         refuse(ctx, node or ast.Pass(), "control reaches the end of the function without return")
     s, rest = body[0], body[1:]
-    if isinstance(s, ast.Expr) and isinstance(s.value, ast.Constant) and isinstance(s.value.value, str):
+    if isinstance(s, ast.Expr) and isinstance(s.value, ast.Constant) and isinstance(s.value.value, str) \
+            and s.value.value != "__py2v_loop_continue__":
         return stmts(ctx, rest, s)   # docstring
     if isinstance(s, ast.Return):
         if s.value is None:
@@ -526,6 +528,51 @@ def stmts(ctx: Ctx, body: list, node=None) -> str:
                 val = f"({val}, {v})"
             return guarded(ctx, s, dv, f"(let '{pat} := {val} in {stmts(c2, rest, s)})")
         refuse(ctx, s, "assignment target")
+    if isinstance(s, ast.While):
+        # while COND: simple assignments   ->  local fixpoint on explicit fuel (exhaustion = the loop does not
+        # terminate within the bound given in the signature table: Err EOther)
+        if not ctx.raises or s.orelse or "fuel" not in ctx.extra:
+            refuse(ctx, s, "while loop (needs a raising function and a fuel bound in the signature table)")
+        carried = []
+        for b in s.body:
+            if isinstance(b, ast.AugAssign) and isinstance(b.target, ast.Name):
+                name = b.target.id
+            elif isinstance(b, ast.Assign) and len(b.targets) == 1 and isinstance(b.targets[0], ast.Name):
+                name = b.targets[0].id
+            else:
+                refuse(ctx, b, "statement inside a while loop")
+            if name not in carried:
+                carried.append(name)
+        for n in carried:
+            if ctx.env.get(n, ("",))[0] != "v":
+                refuse(ctx, s, f"loop variable {n} is not bound before the loop")
+        loop = ctx.fresh("loop")
+        fuel = ctx.fresh("fuel")
+        vs = [(n, ctx.fresh(n), ctx.env[n][2]) for n in carried]
+        c_in = ctx.child(**{n: ("v", y, t) for n, y, t in vs})
+        cond, ct, dv = expr_g(c_in, s.test)
+        if ct != "B" or dv:
+            refuse(ctx, s, "loop condition")
+        # body: assignments, then the recursive call with the current values of the carried variables
+        marker = ast.Expr(ast.Constant("__py2v_loop_continue__"))
+        c_in.extra = dict(ctx.extra, loop_call=(loop, fuel, carried, [t for _, _, t in vs]))
+        body_txt = stmts(c_in, list(s.body) + [marker], s)
+        c_in.extra = dict(ctx.extra)
+        rest_txt = stmts(c_in, rest, s)
+        binders = " ".join(f"({y} : {tname(t)})" for _, y, t in vs)
+        init = " ".join(ctx.env[n][1] for n in carried)
+        return (f"((fix {loop} ({fuel} : nat) {binders} {{struct {fuel}}} : res {tname(ctx.ret)} := "
+                f"match {fuel} with O => Err EOther | S {fuel} => (if {cond} then {body_txt} else {rest_txt}) end) "
+                f"({ctx.extra['fuel']}) {init})")
+    if isinstance(s, ast.Expr) and isinstance(s.value, ast.Constant) and s.value.value == "__py2v_loop_continue__":
+        loop, fuel, carried, types = ctx.extra["loop_call"]
+        args = []
+        for n, t in zip(carried, types):
+            b = ctx.env[n]
+            if b[0] != "v" or b[2] != t:
+                refuse(ctx, s, f"loop variable {n} changes type")
+            args.append(b[1])
+        return "(" + " ".join([loop, fuel] + args) + ")"
     if isinstance(s, ast.If):
         orelse = s.orelse
         # isinstance(s, int) dispatch on a someslice variable
@@ -643,6 +690,8 @@ def translate_function(src_path: Path, tree, item: dict, fns: dict) -> str:
     selfattrs = list(item.get("self", []))
     params = [("self_" + n, t) for n, t in selfattrs] + list(item.get("extra", [])) + list(item["params"])
     ctx = Ctx(where, fns, raises=item.get("raises", False), ret=item["ret"])
+    if "fuel" in item:
+        ctx.extra["fuel"] = item["fuel"]
     if "genexp" not in item:
         got = [a.arg for a in node.args.args]
         want = (["self"] if selfattrs else []) + [n for n, _ in item["params"]]
